@@ -66,7 +66,7 @@ partial def loop (mode : String) (h : IO.FS.Stream) (out : IO.FS.Stream) (cur : 
             out.putStrLn (" ".intercalate toks)
             for o in obs do out.putStrLn ("obs " ++ o)
             loop mode h out (some { c with st := st' })
-          else loop mode h out cur
+          else loop mode h out (some { c with mon := c.fam.monOp c.mon rest })
   | "obs" :: rest =>
       match cur with
       | none => loop mode h out cur
